@@ -411,7 +411,7 @@ func TestCheck(t *testing.T) {
 	defer fx.srv.Close()
 	mo := &monitor{r: r, matrix: map[string]int64{}}
 
-	nWorlds := r.N(19, 190)
+	nWorlds := r.N(30, 1500)
 	nProbes := r.N(len(scenarios)+nNoiseNames+4, len(scenarios)+nNoiseNames+20)
 	cfgIdx := 0
 	for wi := 0; wi < nWorlds; wi++ {
@@ -421,8 +421,8 @@ func TestCheck(t *testing.T) {
 		err := w.build(ctx, fx, dir)
 		cancel()
 		if err != nil {
-			r.Violation("setup:storage-construction", "the real filter storage could not be built from grammar-only lists: "+err.Error(),
-				map[string]any{"world": wi})
+			// not a verdict of C02 (could be the environment): no verdict for this run
+			r.Inconclusive(fmt.Sprintf("world %d: the real filter storage could not be built: %v", wi, err))
 			continue
 		}
 		if es := w.errs.take(); len(es) > 0 {
@@ -487,7 +487,7 @@ func TestCheck(t *testing.T) {
 	r.Require("stack_pass_ok", 400)
 	r.Require("resp_verdict_blocked", 40)
 	for _, pr := range requiredPairs {
-		r.Require("pair:"+pr, 8)
+		r.Require("pair:"+pr, 6)
 	}
 }
 
@@ -649,9 +649,13 @@ func (mo *monitor) runProbe(w *world, c *cfg, st *stack.Stack, srv *agd.Server, 
 				witness(map[string]any{"expected": respAlts, "observed": observedOf(respRes), "candidates": respCands}))
 			return
 		}
-		switch respRes.(type) {
+		switch rr := respRes.(type) {
 		case *filter.ResultBlocked:
 			r.Bucket("resp_verdict_blocked", 1)
+			r.Bucket("resp_verdict_blocked_"+qtClass(p.QType), 1)
+			if strings.Contains(string(rr.Rule), "upstream-marker") {
+				r.Bucket("resp_verdict_blocked_by_cname_target", 1)
+			}
 			losers := mo.pair("resp-block", respCands)
 			r.Eval(fmt.Sprintf("resp/resp-block>%s/%s", strings.Join(uniq(losers), ","), qtClass(p.QType)), len(losers) > 0)
 		case *filter.ResultAllowed:
